@@ -119,7 +119,33 @@ def property_read_table(f):
         raise AnchorLost("visit_enum:match")
     read = {}
     built = {}
+    shared = len(set(vsi["edges"].values())) < len(vsi["edges"])
     for idn, tgt in vsi["edges"].items():
+        if shared:
+            # arms merged by or-patterns (`A | B | C => { read; build(identifier, ..) }`) with the property built by a second
+            # match on the identifier: follow the paths on which the identifier is `idn`
+            root0, names0 = chain(vsi["subject"])
+            root0 = peel(root0)
+            rd, bl = set(), set()
+            nleaf = 0
+            for lf in paths.explore(vis, tgt, lambda t_, root0=root0: peel(t_) == root0, lambda b_, x_: False,
+                                    init_constraints={tuple(names0): idn}, max_paths=400):
+                if lf["kind"] != "return":
+                    continue
+                nleaf += 1
+                for pb in lf["path"]:
+                    c_ = vis.calls.get(pb)
+                    if c_ is not None and c_.is_("newtype_variant"):
+                        rd.add(wire_of_read(c_.gargs[-1]))
+                    elif c_ is not None and c_.is_("tuple_variant"):
+                        ln = vis.operand_term(c_.args[1])
+                        rd.add("utf8pair" if ln[0] == "const" and ln[2] == 2 and "UserPropertyVisitor" in " ".join(c_.gargs) else "?tuple")
+                    for st_ in vis.blocks[pb]["stmts"]:
+                        if st_["k"] == "assign" and "agg" in st_["rv"] and st_["rv"]["agg"].get("adt") == PROP:
+                            bl.add(st_["rv"]["agg"]["variant"])
+            read[idn] = next(iter(rd)) if len(rd) == 1 else "?%d reads" % len(rd)
+            built[idn] = sorted(bl)
+            continue
         others = [t for k, t in vsi["edges"].items() if k != idn]
         arm = vis.reach([tgt]) - vis.reach(others)
         calls = sorted([c for c in vis.calls.values() if c.bb in arm and c.is_("newtype_variant", "tuple_variant")], key=lambda c: c.bb)
